@@ -1,5 +1,6 @@
 """C20 — the core synchronisation primitives never allocate."""
 import re
+from vlib import core
 from vlib.runner import Spec, Suite
 
 HARNESS = ("h_alloc", ["h_alloc.cpp"], {})
@@ -145,7 +146,7 @@ def gen_random(rng, heap_p=0.6, nops=None, small=False):
         elif r < 0.52:
             pool = b.futs + b.mainonly + b.bound
             if pool:
-                b.lines.append("%s %d" % (rng.choice(["cb", "bs"]), rng.choice(pool)))
+                b.lines.append("%s %d" % (rng.choice(["cb", "bs", "bt"]), rng.choice(pool)))
         elif r < 0.57:
             pool = b.futs + b.mainonly + b.bound
             if pool:
@@ -201,7 +202,7 @@ def gen_waiters(rng, k=None, thr="m"):
         if rng.random() < 0.15:
             b.lines.append("cb %d" % f)
         if rng.random() < 0.1:
-            b.lines.append("bs %d" % f)
+            b.lines.append("%s %d" % (rng.choice(["bs", "bt"]), f))
     if how == "main":
         b.lines.append("res %d %s" % (f, rng.choice("vvedx")))
     else:
@@ -321,10 +322,11 @@ class AllocSuite(Suite):
     corpus_prefix = "c20_"
     chunk = 25
     nontrivial_rule = "the program executed at least one coroutine action or produced at least one allocation event"
+    suppress = frozenset()   # categories not reported by the oracle (set during the search for an input that explains a broken obligation)
 
     def gen_cases(self, rng, tier):
         quick = tier == "quick"
-        n = 700 if quick else 20000
+        n = 4000 if quick else 150000
         cases = []
         # the listed finding is exercised on every run, by each of its triggers
         for w in ["pause", "relay", "fresh", "fresh-waiters", "bigmap"]:
@@ -407,6 +409,8 @@ class AllocSuite(Suite):
             frames = [e for e in allocs if e[1] == "frame"]
             for e in allocs:
                 cat, n = e[1], e[2]
+                if cat in self.suppress:
+                    continue
                 if cat == "ready-queue-node":
                     msgs.append("ready-queue-node: the thread-local ready queue of coro_queue allocated %d bytes during `%s`" % (n, op))
                 elif cat == "frame":
@@ -462,6 +466,14 @@ class C20(Spec):
 
     def suites(self):
         return [AllocSuite()]
+
+    def search(self, ctx):
+        """a proof obligation or the correspondence broke and no input explains it yet: the runner's generic search (thorough
+        budget, oracles on) follows. Allocations that are a listed open finding were reported already; they do not explain
+        the breakage, so the oracle stops reporting them for the search."""
+        AllocSuite.suppress = frozenset(k["match"]["alloc_category"] for k in core.known_findings(self.pid)
+                                        if "alloc_category" in k.get("match", {}))
+        return []
 
     def table_obligations(self):
         return ["Cocls.C20.c20_alloc_sites", "Cocls.C20.c20_inline_count"]
